@@ -193,6 +193,16 @@ HX void hx_dbs_far(uint64_t n, uint64_t op) {
    } catch (const std::out_of_range&) { vs_assert(op < 2, "only element access may throw out_of_range"); }
    observe(b, r);
 }
+// text/number conversion around the 64-bit boundary: sparse states (one bit at an arbitrary position,
+// optionally bit 0 / all of the low word), so that the per-bit loops of to_string()/to_ulong() do not fork 2^n ways
+HX void hx_dbs_text_big(uint64_t n, uint64_t mode) {
+   DynamicBitset b(n); Ref r; r.n = n; r.w = 0;
+   size_t p = vs_u64("pos"); vs_assume(p < n);
+   b.set(p); rset(r, p, true);
+   if (mode == 1) { if (vs_u8("low") & 1) { b.set(0); rset(r, 0, true); } }
+   else if (mode == 2) { for (size_t i = 0; i < n && i < 64; ++i) { b.set(i); rset(r, i, true); } }
+   observe_text(b, r);
+}
 // two-operation histories from the same arbitrary pre-state (driver enumerates op pairs)
 HX void hx_dbs2(uint64_t n, uint64_t op1, uint64_t op2) {
    DynamicBitset b(n); Ref r; mk(b, r, n, "bits");
